@@ -73,6 +73,7 @@ FineOps ==
   \cup {Op("Empty", 0, 0, 0, "", "", "")}
   \cup {Op("Literal", 0, 0, 0, l, "", "") : l \in Literals}                          \* the whole file is one degenerate document
   \cup {Op("ValueLiteral", n, 0, 0, l, "", "") : n \in 0..7, l \in {"quote", "apos", "null", "empty"}}  \* the value of the n-th key=value / key: value line
+  \cup {Op("ShrinkToken", n, h, t, "word", "", "") : n \in 0..31, h \in 1..8, t \in 1..2}  \* the n-th word longer than h+t keeps its first h and last t bytes (markers whose prefix and suffix meet)
   \cup {Op("WhitespaceOnly", 0, 0, 0, w, "", "") : w \in {"spaces", "newlines", "crlf-tabs"}}
   \cup {Op("Nest", n, 0, 0, k, m, "") : n \in NestDepths, k \in NestKinds, m \in {"bare", "wrap"}}
   \cup {Op("HeaderEdit", w, 0, 0, r, v, "") : w \in HeadWords, r \in {"head", "tail"}, v \in Vals}
